@@ -321,10 +321,10 @@ def runFields (ws : List String) : String :=
   match ws with
   | mode :: nfs :: rest =>
     let nf := nfs.toNat!
-    let ftoks := rest.take (3 * nf)
-    let atoks := rest.drop (3 * nf)
+    let ftoks := rest.take (4 * nf)
+    let atoks := rest.drop (4 * nf)
     let rec mkF : List String → List FieldDecl
-      | a :: b :: c :: t => { name := unEq a, ty := b.toNat!, prevented := c == "1" } :: mkF t
+      | a :: b :: c :: d :: t => { name := unEq a, ty := b.toNat!, prevented := c == "1", hidden := d == "1" } :: mkF t
       | _ => []
     let fs := mkF ftoks
     let args := atoks.map (fun w => if w == "?" then FieldArg.other else FieldArg.str (unEq w))
@@ -336,6 +336,7 @@ def runFields (ws : List String) : String :=
     | .error (.prevented _) => "err prevented"
     | .error (.dup t) => s!"err dup:{t}"
     | .error .tooMany => "err toomany"
+    | .error (.hidden _) => "err hidden"
   | _ => "bad-request"
 
 /-- `rename nfs =name… nocc (=name obj|- flags)…`; flags: `r` renamable, `s` silent + renamable, `n` neither -/
